@@ -7,8 +7,8 @@
 using namespace sim;
 using namespace mpt;
 
-enum { OP_ASSIGN, OP_REMOVE, OP_GET, OP_WALK, OP_SWEEP };
-static const char *const OPS[] = {"ASSIGN", "REMOVE", "GET", "WALK", "SWEEP", 0};
+enum { OP_ASSIGN, OP_REMOVE, OP_GET, OP_WALK, OP_SWEEP, OP_VSELF };
+static const char *const OPS[] = {"ASSIGN", "REMOVE", "GET", "WALK", "SWEEP", "VIEW_SELF", 0};
 enum { FL_NONE, FL_ALLOC };
 static const char *const FAULTS[] = {"none", "allocfail", 0};
 
@@ -46,6 +46,7 @@ struct ConfigWorld : World {
 		for (int i = 0; i < nops; ++i) {
 			Op op; unsigned k = (unsigned) r.below(20);
 			op.kind = k < 8 ? OP_ASSIGN : k < 11 ? OP_REMOVE : k < 17 ? OP_GET : k < 19 ? OP_WALK : OP_SWEEP;
+			if (k == 10 && r.chance(1, 2)) op.kind = OP_VSELF;      // the element a sub-tree view stands on: its own value, everything beneath it
 			// a: holder (0 global, 1 view on "a", 2 view on "a.b", 3 private C++ root) | depth << 8 | three element selectors << 12,16,20
 			op.a = r.below(4) | (r.range(1, 3) << 8) | (r.below(10) << 12) | (r.below(10) << 16) | (r.below(10) << 20);
 			op.b = r.below(8);      // value length class
@@ -151,6 +152,27 @@ struct ConfigWorld : World {
 					outcome = 0;
 				} else {
 					MNode *mn = find(model[store], abs, true); mn->has_value = true; mn->value = val; outcome = 1;
+				}
+				break;
+			}
+			case OP_VSELF: {
+				int v = (int) (op.a & 1); unsigned what = (unsigned) op.c % 3;
+				MNode *bn = find(model[0], vprefix[v], false);
+				if (what == 0) {
+					std::string val = "self" + std::to_string(op.c);
+					Block vb(val.size() + 1, 0); memcpy(vb.p, val.c_str(), val.size() + 1);
+					int rc; { Sut s(failn); rc = mpt_config_set(vcfg[v], 0, (const char *) vb.p, sep, 0); fired = g.fired; }
+					log.ev("VIEW_SELF %d := '%s'%s -> %d", v, val.c_str(), fired ? " allocfail" : "", rc);
+					if (rc < 0) { if (!fired) fail("refused-valid", "assigning a value to the element view %d stands on was refused (%d)", v, rc); }
+					else { MNode *mn = find(model[0], vprefix[v], true); mn->has_value = true; mn->value = val; outcome = 1; }
+				} else if (what == 1) {
+					int rc; { Sut s; rc = mpt_config_set(vcfg[v], 0, 0, sep, 0); }
+					log.ev("VIEW_SELF %d: remove everything beneath -> %d", v, rc);
+					if (bn) { bn->kids.clear(); bn->order.clear(); outcome = 1; }
+				} else {
+					int rc; { Sut s; rc = vcfg[v]->remove(0); }
+					log.ev("VIEW_SELF %d: drop own value -> %d", v, rc);
+					if (bn) { bn->has_value = false; bn->value.clear(); outcome = 1; }
 				}
 				break;
 			}
